@@ -156,12 +156,14 @@ CheckHist(r) ==
              /\ Report(c.cp_st = "ok" /\ (c.c \in SemKinds => Range(TVs(c.cp)) = Range(TVs(c.a)) /\ Len(c.cp) = Len(c.a))
                         /\ (c.c \in {"formulacounts", "facet"} => c.cp = c.a),
                         r.id, "C14", <<"copy-answer", i, c.c, c.h>>)
-             /\ (c.cp = c.a \/ PrintT(<<"DRIFT", l, r.id, "copy-handles">>))
+             \* the copy has the original's node numbering and unique table, so it must answer with the very same handles
+             /\ Report(c.cp_st # "ok" \/ c.cp = c.a, r.id, "C14", <<"copy-answers-with-other-handles", i, c.c, c.h>>)
   /\ Report(r.final_ac = r.init_ac, r.id, "C11", "ac-modified")
   /\ (p.how # "none") =>
        /\ Report(p.copy_nodes = p.orig_nodes, r.id, "C14", <<"node-numbering", p.how>>)
        /\ Report(p.copy_ac = p.orig_ac, r.id, "C14", <<"roots", p.how>>)
-       /\ (r.copy_final = r.orig_final \/ PrintT(<<"DRIFT", l, r.id, "copy-final-table">>))
+       \* ... and after the same calls its node table is still the original's (nothing persisted is lost, nothing is renumbered)
+       /\ Report(r.copy_final = r.orig_final, r.id, "C14", <<"copy-node-table-diverges", p.how>>)
 
 \* ---------------------------------------------------------------- model-level conformance of call histories (drift only)
 \* the store-level transcriptions of grounded / complete / stable (AdfRobddOps) and the extra formulas follow the recorded
